@@ -459,9 +459,17 @@ pub fn program_units(p: &Program) -> Vec<ExpUnit> {
                         },
                         _ => ExpTerm::Eof { more },
                     };
+                    let mut rows = r.rows.clone();
+                    if let Some(Contra::OfferedMaybe { row, col, .. }) = &r.contra {
+                        if !r.write_row {
+                            if let Some(c) = rows.get_mut(*row as usize).and_then(|rw| rw.get_mut(*col as usize)) {
+                                *c = Cell::OrAnyTemporal(Box::new(c.clone()));
+                            }
+                        }
+                    }
                     out.push(ExpUnit::Rows {
                         cols: r.cols.clone(),
-                        rows: r.rows.clone(),
+                        rows,
                         term,
                     });
                 }
@@ -521,7 +529,8 @@ pub fn recover_units(p: &Program) -> Option<Vec<ExpUnit>> {
                         | Contra::TooManyCols { row, .. }
                         | Contra::NullIntoNotNull { row, .. }
                         | Contra::WrongKind { row, .. }
-                        | Contra::RefusedRetry { row, .. } => *row as usize,
+                        | Contra::RefusedRetry { row, .. }
+                        | Contra::OfferedMaybe { row, .. } => *row as usize,
                     };
                     out.push(ExpUnit::Rows {
                         cols: r.cols.clone(),
@@ -567,7 +576,7 @@ fn program_has_contra(p: &Program) -> bool {
                 (*row as usize) < r.rows.len() && (*col as usize) < r.cols.len()
             }
             // a refused-and-retried value does not end anything
-            Some(Contra::RefusedRetry { .. }) => false,
+            Some(Contra::RefusedRetry { .. }) | Some(Contra::OfferedMaybe { .. }) => false,
         },
         _ => false,
     })
